@@ -53,8 +53,9 @@ theorem retExpect_call_val {s : AState} {rec : OpRec} {m : Nat} {r : Res} (hk : 
   all_goals (cases hkk : rec.kind <;> simp [hkk, callMsg?] at hk <;> simp_all [Res.isErr] <;>
     (try (subst h; simp at hr)))
 
-theorem sendMsg_msg {k : OpKind} {m : Nat} (h : sendMsg? k = some m) : k.msg? = some m ∧ isWaitOp k = true := by
-  cases k <;> simp [sendMsg?] at h <;> simp [OpKind.msg?, isWaitOp, h]
+theorem sendMsg_msg {k : OpKind} {m : Nat} (h : sendMsg? k = some m) :
+    k.msg? = some m ∧ (isWaitOp k = true ∨ holderKind k = true) := by
+  cases k <;> simp [sendMsg?] at h <;> simp [OpKind.msg?, isWaitOp, holderKind, h]
 
 theorem callMsg_msg {k : OpKind} {m : Nat} (h : callMsg? k = some m) : k.msg? = some m := by
   cases k <;> simp [callMsg?] at h <;> simp [OpKind.msg?, h]
@@ -265,8 +266,11 @@ theorem inv_sent_step {w c s s' σ σ1 g l} (hi : C04qInv c s σ σ1 g) (hs : st
     · rcases hi.x hal with h | h | hd
       · rw [hsi] at h; simp at h
       · exact .inr (.inl (off_mono _ h))
-      · obtain ⟨e, he⟩ := (hd.no rec hrec).2 hwait
-        rw [hpend] at he; simp at he
+      · rcases hwait with hwait | hhold
+        · obtain ⟨e, he⟩ := (hd.no rec hrec).2 hwait
+          rw [hpend] at he; simp at he
+        · have he := (hd.no rec hrec).1 hhold
+          rw [hpend] at he; simp at he
     · rcases hi.c01.live rec hrec m hmsg with ⟨e, he⟩ | hl | hl | hl
       · rw [hpend] at he; simp at he
       · left; rw [← hi.hd]; exact hl
